@@ -184,6 +184,69 @@ def _tensor(kind, seed):
     raise ValueError(kind)
 
 
+TENSOR_LAYOUTS = ["fresh", "row_view", "strided_view", "scalar_view", "transposed", "expanded", "narrow_1d", "empty_view", "nonleaf_view"]
+TENSOR_LAYOUT_DTYPES = ["f64", "c64", "i64", "bool"]
+ARRAY_LAYOUTS = ["C", "F", "transposed", "strided", "negative_stride", "readonly", "broadcast"]
+ARRAY_LAYOUT_DTYPES = ["f64", "i16", "c64", "U3"]
+
+
+def tensor_layout(layout, dt, rg, seed):
+    """A tensor of a given memory LAYOUT (what is claimed to come back: dtype, shape, values, requires_grad).
+    Every view is a partial or re-strided view of a seeded 4x6 base; `rg` asks for requires_grad=True, set by
+    .requires_grad_() on the view itself (a leaf), except `nonleaf_view`: x[1] of a base that requires grad
+    (it has a grad_fn; requires_grad is True by construction)."""
+    base = torch.from_numpy(make_array(dt, (4, 6), int(seed) + 21).copy())
+    floating = base.is_floating_point() or base.is_complex()
+    if layout == "nonleaf_view":
+        if not floating:
+            raise ValueError("nonleaf_view needs a floating dtype")
+        return base.requires_grad_(True)[1]
+    if layout == "fresh":
+        t = base[1:3, 1:4].clone()
+    elif layout == "row_view":
+        t = base[1]
+    elif layout == "strided_view":
+        t = base[::2, 1::2]
+    elif layout == "scalar_view":
+        t = base[2, 3]
+    elif layout == "transposed":
+        t = base.t()
+    elif layout == "expanded":
+        t = base[3:4, 1:4].clone().expand(4, 3)
+    elif layout == "narrow_1d":
+        t = base.reshape(-1)[3:7]
+    elif layout == "empty_view":
+        t = base[1:1]
+    else:
+        raise ValueError(layout)
+    if rg:
+        if not floating:
+            raise ValueError("requires_grad needs a floating dtype")
+        t.requires_grad_(True)
+    return t
+
+
+def array_layout(layout, dt, seed):
+    base = make_array(dt, (4, 6), int(seed) + 22)
+    if layout == "C":
+        return np.ascontiguousarray(base)
+    if layout == "F":
+        return np.asfortranarray(base)
+    if layout == "transposed":
+        return base.T
+    if layout == "strided":
+        return base[::2, 1::2]
+    if layout == "negative_stride":
+        return base[::-1, ::-2]
+    if layout == "readonly":
+        a = base.copy()
+        a.setflags(write=False)
+        return a
+    if layout == "broadcast":
+        return np.broadcast_to(base[1, :3], (4, 3))
+    raise ValueError(layout)
+
+
 class Leaf:
     __slots__ = ("name", "cls", "make", "hashable", "numeric", "beyond_i64")
 
@@ -275,6 +338,16 @@ def leaf(name):
         return lf
     lf = _DYN.get(name)
     if lf is None:
+        if name.startswith("tv:"):
+            _, layout, dt, rg = name.split(":")
+            lf = Leaf(name, "tensor", (lambda seed, layout=layout, dt=dt, rg=rg: tensor_layout(layout, dt, rg == "1", seed)))
+            _DYN[name] = lf
+            return lf
+        if name.startswith("av:"):
+            _, layout, dt = name.split(":")
+            lf = Leaf(name, "ndarray", (lambda seed, layout=layout, dt=dt: array_layout(layout, dt, seed)))
+            _DYN[name] = lf
+            return lf
         fam, _, idx = name.partition("#")
         i = int(idx)
         if fam == "str":
@@ -326,6 +399,18 @@ def D(*pairs):
     return ["C", "dict", [[k, v] for k, v in pairs]]
 
 
+def key_allowed(k):
+    """Dict keys: like attribute names, and the empty string (a legal str key; zarr has no node of that name)."""
+    return k == "" or name_allowed(k)
+
+
+def DK(pairs):
+    """Dict with arbitrary allowed keys (D() is for identifier-like ones)."""
+    for k, _ in pairs:
+        assert key_allowed(k), k
+    return ["C", "dict", [[k, v] for k, v in pairs]]
+
+
 def CK(kind, *items):
     """Container of any kind; dict keys are generated (k0, k1, ...)."""
     if kind == "dict":
@@ -368,15 +453,17 @@ def show(desc):
     if tag == "C":
         kind, items = desc[1], desc[2]
         if kind == "dict":
-            if len(items) > 6:
-                return "{" + ", ".join(f"{k!r}: {show(d)}" for k, d in items[:3]) + f", … {len(items)} keys …, {items[-1][0]!r}: {show(items[-1][1])}" + "}"
-            return "{" + ", ".join(f"{k!r}: {show(d)}" for k, d in items) + "}"
+            sk = lambda k: repr(k) if len(k) <= 40 else repr(k[:12] + "…") + f"<{len(k)} chars>"  # noqa: E731
+            if len(items) > 8:
+                return "{" + ", ".join(f"{sk(k)}: {show(d)}" for k, d in items[:3]) + f", … {len(items)} keys …, {sk(items[-1][0])}: {show(items[-1][1])}" + "}"
+            return "{" + ", ".join(f"{sk(k)}: {show(d)}" for k, d in items) + "}"
         if len(items) > 6:
             inner = ", ".join(show(d) for d in items[:3]) + f", … {len(items)} elements …, " + show(items[-1])
         else:
             inner = ", ".join(show(d) for d in items)
         return {"list": f"[{inner}]", "tuple": f"({inner}{',' if len(items) == 1 else ''})", "set": "set{" + inner + "}"}[kind]
-    return f"{desc[1]}(" + ", ".join(f"{n}={show(d)}" for n, d in desc[2]) + ")"
+    sn = lambda n: n if (n.isidentifier() and len(n) <= 40) else (repr(n) if len(n) <= 40 else repr(n[:12] + "…") + f"<{len(n)} chars>")  # noqa: E731
+    return f"{desc[1]}(" + ", ".join(f"{sn(n)}={show(d)}" for n, d in desc[2]) + ")"
 
 
 def desc_hashable(desc):
@@ -738,6 +825,106 @@ def wide_cost(desc):
     return rec(desc)
 
 
+def _layout_graphs(quick):
+    """Tensor LAYOUT x requires_grad x dtype and ndarray LAYOUT x dtype, as a direct attribute, inside list / tuple /
+    dict and inside a nested object. thorough: one graph per (leaf, position). quick: one graph per leaf holding
+    all positions at once, float64 for every layout (both requires_grad values) plus one view per other dtype."""
+    out = []  # (graph, tag)
+
+    def positions(lf):
+        return [
+            ("attribute", lambda: O("Root", t=L(lf))), ("list", lambda: O("Root", l=C("list", L(lf), L("s")))),
+            ("tuple", lambda: O("Root", tp=C("tuple", L(lf)))), ("dict", lambda: O("Root", d=D(("k", L(lf)), ("n", L("none"))))),
+            ("nested_object", lambda: O("Root", c=O("NodeA", t=L(lf), v=L("i-1")))),
+        ]
+
+    def emit(lf, tag):
+        if quick:
+            out.append((O("Root", t=L(lf), l=C("list", L(lf), L("s")), tp=C("tuple", L(lf)), d=D(("k", L(lf)), ("n", L("none"))), c=O("NodeA", t=L(lf), v=L("i-1"))), tag))
+        else:
+            for _, mk in positions(lf):
+                out.append((mk(), tag))
+
+    for layout in TENSOR_LAYOUTS:
+        for dt in TENSOR_LAYOUT_DTYPES:
+            floating = dt in ("f64", "c64")
+            for rg in (0, 1):
+                if rg and not floating:
+                    continue
+                if layout == "nonleaf_view" and not (rg and floating):
+                    continue
+                if quick and dt != "f64" and not (layout == "strided_view" and (rg or not floating)) and not (dt == "c64" and layout == "row_view" and rg):
+                    continue
+                emit(f"tv:{layout}:{dt}:{rg}", {"layout": "tensor:" + layout})
+    for layout in ARRAY_LAYOUTS:
+        for dt in ARRAY_LAYOUT_DTYPES:
+            if quick and dt != "f64" and layout != "strided":
+                continue
+            emit(f"av:{layout}:{dt}", {"layout": "ndarray:" + layout})
+    return out
+
+
+KEY_SETS = [
+    ("prefix_up_to_dot", ["config.yaml", "config"]),
+    ("prefix_up_to_dot", ["layer.0.weight", "layer", "layer.0"]),
+    ("prefix_up_to_dot", ["a.b", "a"]),
+    ("dots", ["a.b.c.d", ".lead", "trail.", "..x"]),
+    ("spaces", ["a b", " lead", "trail "]),
+    ("unicode", ["ü", "漢字", "é.ü"]),
+    ("digits", ["0", "10", "2"]),
+    ("empty", ["", "k"]),
+    ("suffix_lookalike", ["x.is_pathx", "torch_save", "is_path", "x.torch_savex"]),
+    ("long", ["k" * 200, "k" * 199 + "j"]),
+    ("punctuation", ["-", "a=b", "a,b", "(x)", "[y]", "a'b", 'a"b']),
+    ("punctuation", ["a\tb", "a%b", "a#b", "a?b", "a*b", "a:b", "a|b"]),
+    ("case", ["A", "a"]),
+    ("node_names", ["values", "tensor", "module", "_p", "__d__"]),
+]
+KEY_VALUE_KINDS = ["path", "tensor", "tuple", "set", "none", "ndarray", "list", "object", "int", "str"]
+
+
+def _key_value(kind):
+    return {
+        "path": L("path_rel"), "tensor": L("t_f64"), "tuple": C("tuple", L("s"), L("i-1")), "set": C("set", L("s"), L("s_empty")),
+        "none": L("none"), "ndarray": L("arr:i16:(3,)"), "list": C("list", L("i-1"), L("s")), "object": O("NodeC", v=L("i0")),
+        "int": L("i-1"), "str": L("s"),
+    }[kind]
+
+
+def _key_graphs(quick):
+    """Dict KEY and attribute NAME spellings. Keys of one set live in one dict (or on one object), so that a side
+    flag or a node attached to the wrong key shows: the focus key(s) hold a value of the kind under test, every
+    other key holds a plain str (when the kind is Path) or a Path (otherwise).
+    thorough: key set x value kind x every focus key, as dict and as attribute names.
+    quick   : Path values in two complementary patterns (even-index keys / odd-index keys in focus) for every key
+              set, as dict and as attribute names; tensor and tuple values in the first pattern, as dict only (not for
+              the punctuation / case / long sets)."""
+    out = []
+
+    def graph(keys, kind, focus, as_attr):
+        sib = L("s") if kind == "path" else L("path_abs")
+        pairs = [(k, _key_value(kind) if k in focus else sib) for k in keys]
+        if as_attr:
+            if not all(name_allowed(k) for k in keys):
+                return None
+            return O("Root", *pairs)
+        return O("Root", d=DK(pairs))
+
+    for cat, keys in KEY_SETS:
+        tag = {"key_spelling": cat}
+        if quick:
+            combos = [("path", keys[0::2], False), ("path", keys[1::2], False), ("path", keys[0::2], True), ("path", keys[1::2], True)]
+            if cat not in ("punctuation", "case", "long"):
+                combos += [("tensor", keys[0::2], False), ("tuple", keys[0::2], False)]
+        else:
+            combos = [(kind, [k], as_attr) for kind in KEY_VALUE_KINDS for k in keys for as_attr in (False, True)]
+        for kind, focus, as_attr in combos:
+            g = graph(keys, kind, focus, as_attr)
+            if g is not None:
+                out.append((g, tag))
+    return out
+
+
 def _pair_graphs_quick(reps):
     """Quick tier: unordered pairs (with the diagonal) in lists and dicts, plus the reversed order whenever the
     second member is the numeric representative; unordered distinct hashable pairs in sets; the diagonal in
@@ -769,7 +956,10 @@ def grammar(tier):
 
     def add(fam, graphs):
         for g in graphs:
-            fams.append({"fam": fam, "g": g})
+            if isinstance(g, tuple):  # (graph, tag): the tag goes into every failure class of that graph
+                fams.append({"fam": fam, "g": g[0], "tag": g[1]})
+            else:
+                fams.append({"fam": fam, "g": g})
 
     # A. every leaf as the only attribute (both tiers: all 70 dtype x shape pairs)
     add("leaf_as_attribute", [O("Root", x=L(n)) for n in LEAVES])
@@ -830,7 +1020,11 @@ def grammar(tier):
             names.append(O("Root", (nm, L(v))))
             if not quick or v != NAME_VALUES[0]:  # quick: dict keys only with the array value (a key that names a zarr node)
                 names.append(O("Root", x=D((nm, L(v)), ("other", L("s")))))
-    add("names", names)
+    if not quick:  # quick: subsumed by the key-spelling family below
+        add("names", names)
+    # J. memory layouts of tensors and arrays; K. spellings of dict keys and attribute names
+    add("layout", _layout_graphs(quick))
+    add("key_spelling", _key_graphs(quick))
     # I. wide containers (slot names with 1, 2 and 3 digits)
     add("wide_container", _width_graphs(quick))
     if not quick:
